@@ -984,8 +984,8 @@ pub fn t9() -> BoxedStrategy<Value> {
 pub fn t10() -> BoxedStrategy<Value> {
     (
         0u8..48,
-        (140u8..230, 0u32..1400, 0u32..1400, 0u32..1400, 0u32..1400),
-        (0u8..3, 0u8..3, 0u8..3, 0u8..3, any::<bool>(), 0u8..6),
+        (prop_oneof![1 => 140u8..200, 3 => 200u8..=255], prop_oneof![1 => 0u32..1400, 2 => 0u32..400], prop_oneof![1 => 0u32..1400, 3 => 450u32..950], prop_oneof![1 => 0u32..1400, 3 => 450u32..950], prop_oneof![1 => 0u32..1400, 3 => 450u32..950]),
+        (prop_oneof![1 => Just(0u8), 5 => 1u8..3], prop_oneof![1 => Just(0u8), 5 => 1u8..3], prop_oneof![1 => Just(0u8), 5 => 1u8..3], prop_oneof![1 => Just(0u8), 5 => 1u8..3], any::<bool>(), 0u8..6),
     )
         .prop_map(|(align, (half, s1, s2, s3, s4), (p1, p2, p3, p4, reader_upgrades, settle))| {
             let (d, m, p) = (0usize, 1usize, 2usize);
